@@ -22,6 +22,10 @@ pub mod c01;
 pub mod c14;
 #[cfg(kani)]
 pub mod c18;
+#[cfg(kani)]
+pub mod c28;
+#[cfg(kani)]
+pub mod c15;
 
 /// Counterexample replay (see lib/replay.py): the generated concrete-playback tests.
 #[cfg(all(kani, verif_playback))]
